@@ -80,3 +80,10 @@ Definition sx_rough (r : rres) : sx :=
    same dict (up to identity tags), valid, and whether it is inside the guard *)
 Definition sd_check (t1 t2 : value) (sd : sdelta) (generic : dv) : sx :=
   SL [sx_bool (dv_eqb (dv_of_sdelta t1 t2 sd) generic); sx_bool (sd_valid sd); sx_bool (tc_guard t1 t2 sd)].
+
+(* the guard of C19_numbers_zero_partial on concrete numbers (None when a conversion overflows) *)
+Definition sx_zero_guard (a b : pynum) (mx : float) : sx :=
+  match to_float a, to_float b with
+  | Some x, Some y => sx_bool (zero_guard x y mx)
+  | _, _ => SA "None"
+  end.
